@@ -2,16 +2,17 @@
 (***************************************************************************)
 (* EXTENSION (no listed property): the inference PIPELINE of class ROMC    *)
 (* (elfi/methods/inference/romc.py) as a state machine over its            *)
-(* `inference_state` flags, its per-problem status lists and the objects    *)
+(* `inference_state` flags, its per-problem status lists and the objects   *)
 (* the stages hand to each other (optimisation problems, posterior,        *)
 (* samples, result).  Region geometry / line search / posterior arithmetic *)
 (* are property C19 and are opaque here.                                   *)
 (*                                                                         *)
 (* One pure operator per PRIVATE stage, transcribed from the code:         *)
-(*   DefineObjectives  _define_objectives   SolveGradients _solve_gradients *)
-(*   SolveBo           _solve_bo            Filter         _filter_solutions*)
-(*   BuildBoxes        _build_boxes         FitModels      _fit_models      *)
-(*   DefinePosterior   _define_posterior    ComputeEps     compute_eps      *)
+(*   DefineObjectives _define_objectives  SolveGradients _solve_gradients  *)
+(*   SolveBo          _solve_bo           Filter         _filter_solutions *)
+(*   BuildBoxes       _build_boxes        FitModels      _fit_models       *)
+(*   DefinePosterior  _define_posterior   ComputeEps     compute_eps       *)
+(*   "check_solved"   the assert at the top of estimate_regions            *)
 (* and one per PUBLIC single-stage method (Sample, ComputeExpectation,     *)
 (* ComputeEss, EvalUnnorm, EvalPosterior, ExtractResult).  Stages(a) is    *)
 (* the order in which the public method a.m calls them; a stage that       *)
@@ -22,50 +23,52 @@
 (* execute it stage by stage and StagewiseEqualsComposed ties the two.     *)
 (*                                                                         *)
 (* The abstract state s (a record):                                        *)
-(*   gen def sol sur fil loc reg post smp   the nine _has_* flags, in the  *)
+(*   gen def sol sur fil loc reg post smp   the nine _has_* flags in the   *)
 (*        order of the dict: gen_nuisance, defined_problems,               *)
 (*        solved_problems, fitted_surrogate_model, filtered_solutions,     *)
 (*        fitted_local_models, estimated_regions, defined_posterior,       *)
 (*        drawn_samples                                                    *)
-(*   n1                 inference_args["N1"] (0: never set)                *)
-(*   att sld acc bb     the lists attempted / solved / accepted /          *)
-(*                      computed_BB (<<>> stands for None; n1 >= 1)        *)
-(*   probs[i]           optim_problems[i]: state["solved"], state["region"],*)
-(*                      local_surrogates is not None, surrogate is not None *)
-(*   pst                self.posterior: set (not None), cur (built from the *)
-(*                      CURRENT problem set), boxes (indices, in their own  *)
-(*                      problem set, of the problems whose region it holds),*)
-(*                      obj (which objective it evaluates: "actual" |       *)
-(*                      "surrogate" | "local"), nocall (an objective is None)*)
-(*   smps               self.samples: set, cur (drawn from the CURRENT      *)
-(*                      posterior object), rows (= regions sampled), n2     *)
-(*   res                self.result: set, cur (built from the current       *)
-(*                      samples), rows, n2                                  *)
-(*   raised trail       outcome / private stages entered of the running call*)
-(*   nsolve nest        ghost: _define_objectives / _filter_solutions runs  *)
-(*                      so far, saturating at 2                             *)
+(*   n1              inference_args["N1"] (0: never set)                   *)
+(*   att sld acc bb  the lists attempted / solved / accepted / computed_BB *)
+(*                   (<<>> stands for None; n1 >= 1 is assumed)            *)
+(*   probs[i]        optim_problems[i]: state["solved"], state["region"],  *)
+(*                   local_surrogates is not None, surrogate is not None   *)
+(*   pst             self.posterior: set (not None), cur (built from the   *)
+(*                   CURRENT problem set), boxes (the indices, in their    *)
+(*                   own problem set, of the problems whose region it      *)
+(*                   holds), obj (the objective it evaluates: "actual" |   *)
+(*                   "surrogate" | "local"), nocall (an objective is None) *)
+(*   smps            self.samples: set, cur (drawn from the CURRENT        *)
+(*                   posterior object), rows (= regions sampled), n2       *)
+(*   res             self.result: set, cur (built from the current         *)
+(*                   samples), rows, n2                                    *)
+(*   raised trail    outcome of / stages entered by the running call       *)
+(*   nsolve nest     ghosts: runs of _define_objectives /                  *)
+(*                   _filter_solutions so far, saturating at 2             *)
 (*                                                                         *)
-(* The environment c: fix (set of REPAIRS applied to the transcription; {} *)
-(* is the code), par (parallelize), np2 (numpy >= 2: float() of a          *)
-(* 1-element array raises TypeError), scalar (the discrepancy node yields  *)
-(* a 0-d value for batch_size 1; with the standard elfi.Distance node it   *)
-(* does not and _det_generator's float() raises under np2).                *)
+(* The environment c: fix (the set of REPAIRS applied to the               *)
+(* transcription; {} is the code), par (parallelize), np2 (numpy >= 2:     *)
+(* float() of a 1-element array raises TypeError), scalar (the             *)
+(* discrepancy node yields a 0-d value for batch_size 1; the standard      *)
+(* elfi.Distance node does not, and _det_generator's float() raises        *)
+(* under np2 on the first objective evaluation).                           *)
 (*                                                                         *)
-(* REPAIRS (each is a finding about the real sequencing; TLC refutes the   *)
-(* user-level invariants when any one of them is left out):                *)
-(*   "bb_init_empty"      _build_boxes starts computed_bb empty instead of *)
-(*                        [False] * n1 before appending n1 entries          *)
+(* REPAIRS - each one is a finding about the real sequencing: the          *)
+(* repaired machine keeps every user-level invariant below, and TLC        *)
+(* refutes one of them as soon as any single repair is left out.           *)
+(*   "bb_init_empty"      _build_boxes starts computed_bb empty instead    *)
+(*                        of [False] * n1 before APPENDING n1 entries      *)
 (*   "resolve_resets"     _define_objectives (a second solve_problems)     *)
-(*                        resets every later-stage flag, list and object    *)
-(*   "reestimate_resets"  estimate_regions forgets the regions / local     *)
-(*                        models / posterior / samples of an earlier call   *)
+(*                        resets every later-stage flag, list and object   *)
+(*   "reestimate_resets"  estimate_regions forgets the regions, local      *)
+(*                        models, posterior and samples of an earlier call *)
 (*   "parallel_attempted" parallelize=True marks the problems attempted    *)
-(*   "empty_sample_ok"    sample() with no region builds an empty result   *)
-(*                        instead of raising IndexError after setting the   *)
-(*                        flag                                              *)
-(*   "eps_nothing_solved" compute_eps (and fit_posterior(eps_filter="auto"))*)
-(*                        refuses when no problem was solved instead of     *)
-(*                        passing an empty list to np.quantile (IndexError) *)
+(*   "empty_sample_ok"    sample() without any region builds an empty      *)
+(*                        result instead of setting _has_drawn_samples     *)
+(*                        and then raising IndexError in extract_result    *)
+(*   "eps_nothing_solved" compute_eps / fit_posterior(eps_filter="auto")   *)
+(*                        refuse when no problem was solved instead of     *)
+(*                        handing np.quantile an empty list (IndexError)   *)
 (***************************************************************************)
 EXTENDS Naturals, Integers, Sequences, FiniteSets, TLC
 
@@ -136,7 +139,8 @@ ComputeEps(c, s, a) ==
        THEN Raise(s, IF "eps_nothing_solved" \in c.fix THEN "nothing_solved" ELSE "IndexError")      \* np.quantile([])
   ELSE s
 
-\* _filter_solutions(eps_filter): a.below[i] = (f_min of problem i < eps_filter)
+\* _filter_solutions(eps_filter): a.below[i] = (f_min of problem i < eps_filter).  (The repair "reestimate_resets" belongs to
+\* the top of estimate_regions; _filter_solutions is its first stage and is called from nowhere else.)
 Filter(c, s, a) ==
   IF ~s.sol THEN Raise(s, "refused")
   ELSE LET r == IF "reestimate_resets" \in c.fix
